@@ -212,6 +212,16 @@ func observable(c *gen.DocCase) string {
 		fmt.Fprintf(&b, "%q:%q ", k, l)
 	}
 
+	// The included list as the document holds it (as a multiset: its order is
+	// the library's to change).
+	inc := []string{}
+	for _, r := range c.Doc.Included {
+		inc = append(inc, fmt.Sprintf("%q/%q", r.GetType().Name, r.Get("id")))
+	}
+
+	sort.Strings(inc)
+	fmt.Fprintf(&b, " included=%v", inc)
+
 	// The lists of relationship names whose data is asked for, of the URL and
 	// of the document (their order is the library's to change, not their
 	// content).
@@ -258,6 +268,16 @@ func TestC11Deterministic(t *testing.T) {
 		o := docOpts
 		o.DistinctIncludedIDs = rapid.IntRange(0, 3).Draw(t, "sameids") != 0
 		c := gen.Document(t, o)
+
+		// A caller may list among the included resources one that is also
+		// primary data (the library only keeps that from happening in
+		// Include): the list is the caller's, marshaling leaves it alone.
+		if len(c.Primary) > 0 && len(c.Included) > 0 && rapid.IntRange(0, 5).Draw(t, "primary-included") == 0 {
+			m := c.Primary[rapid.IntRange(0, len(c.Primary)-1).Draw(t, "primary-included-which")]
+			at := rapid.IntRange(0, len(c.Included)).Draw(t, "primary-included-at")
+			c.Included = append(c.Included[:at:at], append([]gen.ResModel{m}, c.Included[at:]...)...)
+			c.Doc.Included = append(c.Doc.Included[:at:at], append([]jsonapi.Resource{m.Res}, c.Doc.Included[at:]...)...)
+		}
 
 		if len(c.Included) > 12 {
 			seen := map[string]bool{}
